@@ -634,6 +634,7 @@ impl World {
                 let claimed = self.parties[pi].sessions[si].claimed;
                 let pv = match self.parties[pi].sessions[si].sess.encrypt(claimed, &plain) { Ok(p) => p, Err(e) => unresolved!(e) };
                 info.insert("key".into(), json!(self.parties[pi].sessions[si].kid));
+                info.insert("claim".into(), json!(self.id_name(&claimed)));
                 info.insert("n".into(), json!(self.intern.name('m', &pv.nonce)));
                 info.insert("plain".into(), json!(self.intern.name('b', &plain)));
                 let bytes = self.tamper(inp, pv.encode(&self.local_id), &mut info);
